@@ -195,7 +195,8 @@ func (sc *scenario) round(i int, seed uint64, n int, fair bool, out *vs.Out, mod
 }
 
 func cleanParent(cfg scfg, replicas int, image string, mode string) vs.M {
-	spec := vs.M{"replicas": int64(replicas), "image": image, "selector": vs.M{"matchLabels": vs.M{"app": "web"}}, "childLabels": vs.M{"app": "web"}}
+	spec := vs.M{"replicas": int64(replicas), "image": image, "selector": vs.M{"matchLabels": vs.M{"app": "web"}}, "childLabels": vs.M{"app": "web"},
+		"template": vs.M{"metadata": vs.M{"labels": vs.M{"app": "web"}}}}
 	if mode != "" {
 		spec["hookMode"] = mode
 	}
